@@ -328,9 +328,24 @@ func (j *judge) idToken(id, access string) {
 		j.fail("id_token:c_hash-without-code", "c_hash=%v but no code belongs to this response", m["c_hash"])
 	}
 	// --- user claims only for granted scopes, and only the subject's own ---
+	// scopes that may put user claims into THIS id_token: the granted ones, minus what the client's
+	// RestrictAdditionalIdTokenScopes removes, minus profile/email/phone/address altogether when an access token is
+	// issued in the same response and the client did not opt into IDTokenUserinfoClaimsAssertion
+	var idScopes []string
+	for _, sc := range x.Scopes {
+		if !slices.Contains(e.dropID, sc) {
+			idScopes = append(idScopes, sc)
+		}
+	}
+	userinfoOff := access != "" && !e.d.Assertion
+	if userinfoOff {
+		idScopes = slices.DeleteFunc(idScopes, func(sc string) bool { _, is := scopeClaims[sc]; return is })
+	}
+	j.dec["id_token_scopes"] = idScopes
+	j.userinfoCalls(idScopes, userinfoOff)
 	u := e.user(x.Subject)
 	for scope, names := range scopeClaims {
-		granted := slices.Contains(x.Scopes, scope)
+		granted := slices.Contains(idScopes, scope)
 		for _, n := range names {
 			v, has := m[n]
 			if !has {
@@ -341,7 +356,7 @@ func (j *judge) idToken(id, access string) {
 				continue
 			}
 			if !granted {
-				j.fail("id_token:claim-without-scope", "claim %s=%v although scope %q was not granted (granted: %v)", n, v, scope, x.Scopes)
+				j.fail("id_token:claim-without-scope", "claim %s=%v although scope %q may not put claims into this id_token (granted %v, dropped by the client %v, access token in the same response=%v, userinfo assertion=%v)", n, v, scope, x.Scopes, e.dropID, access != "", e.d.Assertion)
 				continue
 			}
 			if want, known := u[n]; known && !jsonEqual(want, v) {
@@ -371,6 +386,69 @@ func (j *judge) idToken(id, access string) {
 	}
 	// --- the library's own RP verifier over the provider's own /keys ---
 	j.rpVerify(id, access, alg, m, filled)
+}
+
+// userinfoCalls reads from the vstore journal which scope lists the library handed to the storage for the user claims
+// of this id_token: SetUserinfoFromScopes and the optional hook SetUserinfoFromRequest must be handed the same list,
+// and neither may be handed a scope outside idScopes.
+func (j *judge) userinfoCalls(idScopes []string, userinfoOff bool) {
+	e, run := j.e, j.e.run
+	var fromScopes, fromRequest []string
+	var nScopes, nRequest int
+	for _, en := range e.w.Store.JournalSince(j.t.Seq) {
+		switch en.Method {
+		case "SetUserinfoFromScopes":
+			nScopes++
+			fromScopes = strings.Fields(en.C)
+		case "SetUserinfoFromRequest":
+			nRequest++
+			fromRequest = strings.Fields(en.C)
+		}
+	}
+	if nScopes > 1 || nRequest > 1 {
+		run.Count("grey", "several_userinfo_calls_in_one_request")
+		return
+	}
+	if nScopes == 1 {
+		run.Count("userinfo_calls", "SetUserinfoFromScopes")
+		for _, sc := range fromScopes {
+			if !slices.Contains(idScopes, sc) {
+				j.fail("id_token:userinfo-scopes-beyond-granted", "SetUserinfoFromScopes was handed scope %q (list %v); the scopes that may put claims into this id_token are %v", sc, fromScopes, idScopes)
+				break
+			}
+		}
+	}
+	if nRequest == 1 {
+		run.Count("userinfo_calls", "SetUserinfoFromRequest")
+		if nScopes == 1 && !slices.Equal(fromScopes, fromRequest) {
+			j.fail("id_token:userinfo-hook-scopes-differ", "SetUserinfoFromRequest was handed scopes %v, SetUserinfoFromScopes in the same request %v", fromRequest, fromScopes)
+		}
+		for _, sc := range fromRequest {
+			if !slices.Contains(idScopes, sc) {
+				j.fail("id_token:userinfo-hook-scopes-differ", "SetUserinfoFromRequest was handed scope %q (list %v); the scopes that may put claims into this id_token are %v", sc, fromRequest, idScopes)
+				break
+			}
+		}
+		if userinfoOff {
+			for _, sc := range j.x.Scopes {
+				if _, is := scopeClaims[sc]; is && !slices.Contains(e.dropID, sc) {
+					// the deciding combination: hook present, assertion off, access token issued, a user-claim scope granted
+					run.Observed("userinfo_hook_restricted:" + e.d.Router)
+					run.Count("userinfo_calls", "hook_with_assertion_off_and_user_scope_granted")
+					break
+				}
+			}
+		}
+	}
+	if len(e.dropID) > 0 {
+		for _, sc := range j.x.Scopes {
+			if slices.Contains(e.dropID, sc) {
+				run.Observed("id_scopes_dropped_by_client:" + e.d.Router)
+				run.Count("userinfo_calls", "granted_scope_dropped_by_client")
+				break
+			}
+		}
+	}
 }
 
 func abs64(a int64) int64 {
